@@ -700,6 +700,11 @@ mod huffman {
                         }
                     }
 
+                    if self.pending_bits == 0 && std::ptr::eq(map, self.decode) {
+                        // All bits are consumed at a symbol boundary: the item is complete.
+                        return None;
+                    }
+
                     if self.pending_bits < 8 {
                         // We have run out of bytes. We may yet be able to decode the remaining bits.
                         // Promote the valid bits and consult the map; if it only consumes valid bits,
